@@ -193,13 +193,13 @@ func Apply(ctx context.Context, rc *regclient.RegClient, rSrc ref.Ref, opts ...O
 				var zw *zstd.Encoder
 				digRaw := desc.DigestAlgo().Digester() // raw/compressed digest
 				digUC := desc.DigestAlgo().Digester()  // uncompressed digest
-				if dl.desc.MediaType == mediatype.Docker2LayerGzip || dl.desc.MediaType == mediatype.OCI1LayerGzip {
+				if desc.MediaType == mediatype.Docker2LayerGzip || desc.MediaType == mediatype.OCI1LayerGzip {
 					cw := io.MultiWriter(fh, digRaw.Hash())
 					gw = gzip.NewWriter(cw)
 					defer gw.Close()
 					ucw := io.MultiWriter(gw, digUC.Hash())
 					tw = tar.NewWriter(ucw)
-				} else if dl.desc.MediaType == mediatype.Docker2LayerZstd || dl.desc.MediaType == mediatype.OCI1LayerZstd {
+				} else if desc.MediaType == mediatype.Docker2LayerZstd || desc.MediaType == mediatype.OCI1LayerZstd {
 					cw := io.MultiWriter(fh, digRaw.Hash())
 					zw, err = zstd.NewWriter(cw)
 					if err != nil {
